@@ -149,6 +149,11 @@ def handle : Handler
         -- float64 tolerance of DESIGN section 8: 1e-9 (1 + |want|)
         let tol : Rat := (1 + ratAbs want) / 1000000000
         some (if ratAbs (x - want) ≤ tol then "holds" else "fails want=" ++ showRat want)) "bad-args"
+  -- contract of external code: `np.argsort` returned a permutation of the nodes
+  | "c11.contract_perm", [n, perm] => some <| Option.getD (do
+      let n ← n.toNat?
+      let perm ← natList? perm
+      some (if perm.isPerm (List.range n) then "holds" else "fails not-a-permutation")) "bad-args"
   -- the prange descriptor regenerated from the source on every run
   | "c11.prange", [fn, lv, reds, others, rr, cs] => some <| Option.getD (do
       let d : PrangeDesc := { function := fn, loopVar := lv, reductions := ← pairList? reds,
